@@ -496,6 +496,61 @@ def r9(ctx, prog):
     ctx.ob('C13.R9', 'next|fallthrough', okf, 'an unexpected byte resets step_ to kNone and returns kFail', where=f.loc(rets[0]['i'] if rets else f.body))
 
 
+KEY_HANDLERS = {'kPrintable': 'onChar', 'kEnter': 'onEnterKey', 'kBackspace': 'onBackspaceKey', 'kTab': 'onTabKey', 'kMoveUp': 'onMoveUpKey',
+                'kMoveDown': 'onMoveDownKey', 'kMoveLeft': 'onMoveLeftKey', 'kMoveRight': 'onMoveRightKey', 'kHome': 'onHomeKey', 'kEnd': 'onEndKey',
+                'kDelete': 'onDeleteKey'}
+
+
+def switch_table(f, sw):
+    """enumerator name -> names of the functions called from its label to the next break (fall-through included)"""
+    body = f.s(sw['body'])
+    out, open_ = {}, []
+    for c in body.get('ch', ()):
+        st = f.s(c)
+        while st is not None and st['k'] in ('CaseStmt', 'DefaultStmt'):
+            if st['k'] == 'CaseStmt':
+                names = [f.stmts[x].get('n') for x in f.walk(st['ch'][0]) if f.stmts[x]['k'] == 'DeclRefExpr']
+                lab = names[0] if names else '?'
+                sub = st['ch'][1] if len(st['ch']) > 1 else None
+            else:
+                lab = 'default'
+                sub = st['ch'][0] if st.get('ch') else None
+            out.setdefault(lab, [])
+            open_.append(lab)         # labels still open from above fall through into this one
+            st = f.s(sub) if sub is not None else None
+            c = sub
+        if st is None or not open_:
+            continue
+        if st['k'] in ('BreakStmt', 'ReturnStmt'):
+            open_ = []
+            continue
+        called = [f.stmts[x].get('fn') for x in f.walk(c) if f.stmts[x]['k'] in q.CALL_KINDS and f.stmts[x].get('fn')]
+        for lab in open_:
+            out[lab] += called
+    return out
+
+
+def r10(ctx, prog):
+    ctx.rule('C13.R10', 'A11+A4 key dispatch: every decided key result is routed to the editing handler of the same name (one handler per case, no fall-through into '
+             'another key\'s handler), and the scanner is restarted after each decided key', floor=12)
+    f = prog.fn1(T + '::onRecvString')
+    sws = [st for st in f.stmts if st and st['k'] == 'SwitchStmt']
+    if not sws:
+        raise AnalysisBroken('onRecvString: dispatch switch not found')
+    sw = sorted(sws, key=lambda s_: s_['l'])[0]
+    tab = switch_table(f, sw)
+    for key, h in sorted(KEY_HANDLERS.items()):
+        got = tab.get(key)
+        ok = got == [h]
+        ctx.ob('C13.R10', 'dispatch|%s' % key, ok, '%s -> %s()' % (key, h) if ok else
+               'key result %s must run exactly %s(); the switch runs %s' % (key, h, got if got is not None else 'nothing (no case)'), where=f.loc(sw['i']))
+    # restart after a decided key: every path from the switch to the next scanner step passes start()
+    starts = [st for st in f.calls() if st.get('fn') == 'start' and 'key_event_scanner_' in f.path(st.get('obj'))]
+    nexts = [st for st in f.calls() if st.get('fn') == 'next' and 'key_event_scanner_' in f.path(st.get('obj'))]
+    okr = bool(starts) and bool(nexts) and not f.cfg.exists_path(q.pt(f, sw), q.pt(f, nexts[0]), avoid=q.pts(f, starts))
+    ctx.ob('C13.R10', 'dispatch|restart', okr, 'the scanner is restarted (start()) after every decided key before the next byte is fed', where=f.loc(sw['i']))
+
+
 def run(ctx):
     prog = extract('ALL' if ctx.tier == 'thorough' else scope_units())
     ctx.guard(r1, ctx, prog)
@@ -506,6 +561,7 @@ def run(ctx):
     ctx.guard(r6, ctx, prog)
     ctx.guard(r7, ctx, prog)
     ctx.guard(r9, ctx, prog)
+    ctx.guard(r10, ctx, prog)
     ctx.guard(harden.run, ctx, prog, 'C13.R8', input_entries(prog),
               lambda g: g.file.startswith(MODULES + '/terminal/') or g.file.startswith(MODULES + '/util/'), 'terminal input path')
     return prog
